@@ -12,14 +12,15 @@ Definition mem := N -> N.                   (* next field of each node (HEAD inc
 Definition upd (m : mem) (a v : N) : mem := fun x => if x =? a then v else m x.
 Fixpoint apply (b : list (N * N)) (m : mem) : mem := match b with [] => m | (a, v) :: b' => apply b' (upd m a v) end.
 
-Inductive uop := UAdd (n : N) | UDel (n : N) | URepl (old new : N).
+Inductive uop := UAdd (n : N) | UDel (n : N) | URepl (old new : N) | UAddTail (n : N).
 (* updater program counter: which store of the current operation comes next *)
-Inductive upc := U_Idle | U_Add2 (n : N) | U_Repl2 (old new : N).
+Inductive upc := U_Idle | U_Add2 (n : N) | U_Repl2 (old new : N) | U_Tail2 (n : N).
 Record st := { m : mem; buf : list (N * N); lst : list N (* updater's own view of the list *); upc_ : upc; todo : list uop;
                rcur : nat -> N (* reader cursors; HEAD = not traversing / done *) }.
 Inductive choice := UStep | UFlush | RStep (r : nat).
 
 Definition first (l : list N) : N := match l with [] => HEAD | x :: _ => x end.
+Fixpoint lastn (l : list N) : N := match l with [] => HEAD | [x] => x | _ :: l' => lastn l' end.
 Fixpoint succ_of (l : list N) (n : N) : N := match l with [] => HEAD | x :: l' => if x =? n then first l' else succ_of l' n end.
 Fixpoint pred_of (p : N) (l : list N) (n : N) : N := match l with [] => HEAD | x :: l' => if x =? n then p else pred_of x l' n end.
 Fixpoint remove1 (l : list N) (n : N) : list N := match l with [] => [] | x :: l' => if x =? n then l' else x :: remove1 l' n end.
@@ -45,7 +46,11 @@ Definition exec (c : choice) (s : st) : st :=
               if inb (lst s) o
               then {| m := m s; buf := buf s ++ [(n, succ_of (lst s) o)]; lst := lst s; upc_ := U_Repl2 o n; todo := rest; rcur := rcur s |}
               else {| m := m s; buf := buf s; lst := lst s; upc_ := U_Idle; todo := rest; rcur := rcur s |}
+          | UAddTail n :: rest =>   (* newp->next = head *)
+              {| m := m s; buf := buf s ++ [(n, HEAD)]; lst := lst s; upc_ := U_Tail2 n; todo := rest; rcur := rcur s |}
           end
+      | U_Tail2 n =>                (* rcu_assign_pointer(head->prev->next, newp) *)
+          {| m := m s; buf := buf s ++ [(lastn (lst s), n)]; lst := lst s ++ [n]; upc_ := U_Idle; todo := todo s; rcur := rcur s |}
       | U_Add2 n =>                 (* rcu_assign_pointer(head->next, newp) *)
           {| m := m s; buf := buf s ++ [(HEAD, n)]; lst := n :: lst s; upc_ := U_Idle; todo := todo s; rcur := rcur s |}
       | U_Repl2 o n =>              (* rcu_assign_pointer(new->prev->next, new) *)
@@ -59,7 +64,7 @@ Definition okp (v : N) (mm : mem) : Prop := v = HEAD \/ (v <> G /\ mm v <> G).
 Fixpoint bufok (mm : mem) (b : list (N * N)) : Prop :=
   match b with [] => True | (a, v) :: b' => v <> G /\ okp v mm /\ bufok (upd mm a v) b' end.
 Definition view (s : st) : mem := apply (buf s) (m s).
-Definition opok (o : uop) : Prop := match o with UAdd n => n <> G /\ n <> HEAD | UDel _ => True | URepl _ n => n <> G /\ n <> HEAD end.
+Definition opok (o : uop) : Prop := match o with UAdd n | UAddTail n => n <> G /\ n <> HEAD | UDel _ => True | URepl _ n => n <> G /\ n <> HEAD end.
 
 Record Inv (s : st) : Prop := {
   I_head : m s HEAD <> G;
@@ -67,7 +72,7 @@ Record Inv (s : st) : Prop := {
   I_cur : forall r, okp (rcur s r) (m s);
   I_buf : bufok (m s) (buf s);
   I_lst : forall x, In x (lst s) -> x <> G /\ view s x <> G;
-  I_pc : match upc_ s with U_Idle => True | U_Add2 n | U_Repl2 _ n => n <> G /\ view s n <> G end;
+  I_pc : match upc_ s with U_Idle => True | U_Add2 n | U_Repl2 _ n | U_Tail2 n => n <> G /\ view s n <> G end;
   I_todo : Forall opok (todo s)
 }.
 
@@ -105,7 +110,7 @@ Qed.
 (* the updater appends one store (a, v) whose value is HEAD or initialised in its own view *)
 Lemma Inv_store s a v l' pc' td' : Inv s -> v <> G -> okp v (view s) ->
   (forall x, In x l' -> x <> G /\ (view s x <> G \/ (x = a))) ->
-  match pc' with U_Idle => True | U_Add2 n | U_Repl2 _ n => n <> G /\ (view s n <> G \/ n = a) end ->
+  match pc' with U_Idle => True | U_Add2 n | U_Repl2 _ n | U_Tail2 n => n <> G /\ (view s n <> G \/ n = a) end ->
   Forall opok td' ->
   Inv {| m := m s; buf := buf s ++ [(a, v)]; lst := l'; upc_ := pc'; todo := td'; rcur := rcur s |}.
 Proof.
@@ -116,7 +121,7 @@ Proof.
   - apply bufok_app; [apply (I_buf s HI)|exact Hv|exact Ho].
   - intros x Hx. destruct (Hl x Hx) as [A B]. split; [exact A|]. unfold view; cbn [buf m]. rewrite apply_app.
     destruct B as [B| ->]; [apply upd_mono; assumption|rewrite upd_same; exact Hv].
-  - unfold view; cbn [buf m]. rewrite apply_app. destruct pc' as [|n|o n]; [exact I| |];
+  - unfold view; cbn [buf m]. rewrite apply_app. destruct pc' as [|n|o n|n]; [exact I| | |];
       (destruct Hp as [A B]; split; [exact A|]; destruct B as [B| ->]; [apply upd_mono; assumption|rewrite upd_same; exact Hv]).
   - exact Ht.
 Qed.
@@ -128,7 +133,7 @@ Lemma Inv_exec s c : Inv s -> Inv (exec c s).
 Proof.
   intros HI. destruct c as [| |r]; unfold exec.
   - destruct (upc_ s) eqn:Ep.
-    + destruct (todo s) as [|[n|n|o n] rest] eqn:Et; [exact HI| | |].
+    + destruct (todo s) as [|[n|n|o n|n] rest] eqn:Et; [exact HI| | | |].
       * (* add, first store *)
         pose proof (I_todo s HI) as Ht. rewrite Et in Ht. inversion Ht as [|? ? Ho Hr]; subst. cbn [opok] in Ho. destruct Ho as [Hn1 Hn2].
         assert (Hf : okp (first (lst s)) (view s)) by (apply okp_view_in; [exact HI|apply first_in]).
@@ -153,6 +158,11 @@ Proof.
            ++ intros x Hx. destruct (I_lst s HI x Hx) as [A B]. split; [exact A|left; exact B].
            ++ split; [exact Hn1|right; reflexivity].
         -- constructor; cbn [m buf lst upc_ todo rcur]; try apply HI; try exact I; try exact Hr; try (intros x Hx; apply (I_lst s HI x Hx)).
+      * (* add_tail, first store *)
+        pose proof (I_todo s HI) as Ht. rewrite Et in Ht. inversion Ht as [|? ? Ho Hr]; subst. cbn [opok] in Ho. destruct Ho as [Hn1 Hn2].
+        apply Inv_store; [exact HI|discriminate|left; reflexivity| | |exact Hr].
+        -- intros x Hx. destruct (I_lst s HI x Hx) as [A B]. split; [exact A|left; exact B].
+        -- split; [exact Hn1|right; reflexivity].
     + (* add, publication store *)
       pose proof (I_pc s HI) as Hp. rewrite Ep in Hp. destruct Hp as [Hn Hv].
       apply Inv_store; [exact HI|exact Hn|right; split; assumption| |exact I|apply (I_todo s HI)].
@@ -162,6 +172,11 @@ Proof.
       apply Inv_store; [exact HI|exact Hn|right; split; assumption| |exact I|apply (I_todo s HI)].
       intros x Hx. destruct (replace1_in _ _ _ _ Hx) as [->|Hx']; [split; [exact Hn|left; exact Hv]|].
       destruct (I_lst s HI x Hx') as [A B]. split; [exact A|left; exact B].
+    + (* add_tail, publication store *)
+      pose proof (I_pc s HI) as Hp. rewrite Ep in Hp. destruct Hp as [Hn Hv].
+      apply Inv_store; [exact HI|exact Hn|right; split; assumption| |exact I|apply (I_todo s HI)].
+      intros x Hx. apply in_app_or in Hx. destruct Hx as [Hx|[<-|[]]]; [|split; [exact Hn|left; exact Hv]].
+      destruct (I_lst s HI x Hx) as [A B]. split; [exact A|left; exact B].
   - (* flush *)
     destruct (buf s) as [|[a v] b] eqn:Eb; [exact HI|].
     pose proof (I_buf s HI) as Hb. rewrite Eb in Hb. cbn [bufok] in Hb. destruct Hb as (Hv & Ho & Hb').
